@@ -70,15 +70,20 @@ def run_extra(ctx):
             cases.append("\t".join(["de.text", path, rng.choice(["w1252", "utf8"]), rng.choice(["any", "ign", "map(any)", "seq(any)"]), h]))
         cases.append("writer.rt\t32,1,r\t%s" % h)
     ctx.count("binary_inputs", len(bins)); ctx.count("text_inputs_extra", len(texts))
+    from props import C05_inv      # a_c05 (wave 4): per-case watchdog wrapper, see props/C05_inv.py
+    cases = [C05_inv.w(c) for c in cases]
     for prof in ("release", "debug"):
-        impl, _ = ctx.correspond("entry_points_extra_" + prof, cases, nontrivial=lambda c, i: not i.startswith("ERR") and i != "NOKIND", profile=prof, model=False)
+        r = C05_inv.guarded(ctx, "entry_points_extra_" + prof, cases, prof, nontrivial=lambda c, i: not i.startswith("ERR") and i != "NOKIND", model=False)
+        if r is None:       # a_c05: hang storm seen by the pilot, failures already recorded
+            continue
+        impl = r[0]
         base = len(impl) - len(cases)
         for k, c in enumerate(cases):
             o = impl[base + k]
             if o in CRASH or "RUNAWAY" in o:
-                ctx.fail("crash-" + c.split("\t")[0], "%s build: %s on %s" % (prof, o, c[:200].replace("\t", " ")), [c], [o], "a value or an error")
+                ctx.fail("crash-" + C05_inv.inner_kind(c), "%s build: %s on %s" % (prof, o, c[:200].replace("\t", " ")), [c], [o], "a value or an error")
             if o == "NOKIND":
-                ctx.count("nokind_" + c.split("\t")[0])
+                ctx.count("nokind_" + C05_inv.inner_kind(c))
     # ---- tape capacity sweep: the binary tape parser writes through raw pointers after `reserve`; whether a write is in
     #      bounds depends on tape length vs. capacity (max(len/5, 10), doubling), so every structural event (array turning
     #      mixed at `=`, ghost clusters, primitive-array fast path, container open/close, top-level pairs) is placed at
@@ -102,6 +107,7 @@ def run_extra(ctx):
     for _ in range(ctx.scale(300, 4000)):
         cc.append("bt.all\t" + hexs(B.gen_doc(rng)[0]))
     ctx.count("tape_capacity_cases", len(cc))
+    cc = [C05_inv.w(c) for c in cc]
     for prof in ("release", "debug"):
         impl, _ = ctx.correspond("tape_capacity_" + prof, cc, nontrivial=lambda c, i: "OK" in i, profile=prof, model=False)
         base = len(impl) - len(cc)
